@@ -39,12 +39,18 @@ func cellName(i int, g int64) string { return fmt.Sprintf("name-%d-g%d", i, g) }
 func genRole(g int64) string         { return fmt.Sprintf("role-g%d", g) }
 func cellHub(i int, g int64) string  { return fmt.Sprintf("h%d", (int64(i)+g)%2) }
 
+// parRole: half of the cells hold par-0, the other half par-1, and they swap with every generation
+func parRole(i int, g int64) string { return fmt.Sprintf("par-%d", (int64(i)+g)%2) }
+
 type stampDb struct {
 	sc      *schema.Schema
 	db      *boltz.DbImpl
 	path    string
 	gen     atomic.Int64 // generation allocator
 	commits atomic.Int64 // number of committed write transactions (sampled by readers)
+	// index-driven cursor providers created once and shared by every reader and transaction (as a caller that keeps a
+	// provider per role list would): over two values (merged set) and over one (the index's own cursor)
+	anyOfPar0, onlyPar1 func(tx *bbolt.Tx, forward bool) ast.SetCursor
 }
 
 func openStamp(path string) (*stampDb, error) {
@@ -53,7 +59,11 @@ func openStamp(path string) (*stampDb, error) {
 	if err != nil {
 		return nil, err
 	}
-	return &stampDb{sc: sc, db: db, path: path}, nil
+	s := &stampDb{sc: sc, db: db, path: path}
+	cells := sc.St("cells")
+	s.anyOfPar0 = cells.Store.IteratorMatchingAnyOf(cells.SetIdx["roles"], []string{"par-0", "no-such-role"})
+	s.onlyPar1 = cells.Store.IteratorMatchingAnyOf(cells.SetIdx["roles"], []string{"par-1"})
+	return s, nil
 }
 
 // writeState rewrites the database into state(g) in one transaction. first=true creates the entities.
@@ -90,7 +100,7 @@ func (s *stampDb) writeStateVia(g int64, batch bool) error {
 		}
 		for i := 0; i < stampCells; i++ {
 			id := cellId(i)
-			e := &schema.Ent{Id: id, Typ: "cells", V: map[string]any{"gen": g, "name": cellName(i, g), "roles": []string{genRole(g), "all"}, "hub": cellHub(i, g),
+			e := &schema.Ent{Id: id, Typ: "cells", V: map[string]any{"gen": g, "name": cellName(i, g), "roles": []string{genRole(g), "all", parRole(i, g)}, "hub": cellHub(i, g),
 				"hubs": []string{cellHub(i, g)}, "meta": map[string]any{"g": g, "tag": genRole(g)},
 				"attrs": map[string]any{"net": map[string]any{"zone": genRole(g)}, "hw": map[string]any{"zone": "hz"}}}}
 			var err error
@@ -160,8 +170,8 @@ func (s *stampDb) verifyTx(tx *bbolt.Tx, deep bool) (int64, []string) {
 	}
 	var keys []string
 	cells.SetIdx["roles"].ReadKeys(tx, func(v []byte) { keys = append(keys, string(v)) })
-	if fmt.Sprint(keys) != fmt.Sprint([]string{"all", genRole(g)}) {
-		addf("set index keys %q, expected [all %s]", keys, genRole(g))
+	if fmt.Sprint(keys) != fmt.Sprint([]string{"all", "par-0", "par-1", genRole(g)}) {
+		addf("set index keys %q, expected [all par-0 par-1 %s]", keys, genRole(g))
 	}
 	for h := 0; h < 2; h++ {
 		hid := fmt.Sprintf("h%d", h)
@@ -190,6 +200,8 @@ func (s *stampDb) verifyTx(tx *bbolt.Tx, deep bool) (int64, []string) {
 			{fmt.Sprintf(`anyOf(roles) = "%s"`, genRole(g)), allIds},
 			{fmt.Sprintf(`name = "%s"`, cellName(1, g)), []string{cellId(1)}},
 			{fmt.Sprintf(`meta.tag = "%s" sort by name desc`, genRole(g)), []string{"c3", "c2", "c1", "c0"}},
+			// more sort fields than the scanner honours (the surplus is cut off per store, on the read path)
+			{fmt.Sprintf(`gen = %d sort by gen, name desc, hub, gen desc, name, id, hub desc`, g), []string{"c3", "c2", "c1", "c0"}},
 			{fmt.Sprintf(`anyOf(hubs.gen) = %d`, g), allIds},
 			{fmt.Sprintf(`hub.gen != %d or isEmpty(hubs)`, g), nil},
 		}
@@ -197,6 +209,30 @@ func (s *stampDb) verifyTx(tx *bbolt.Tx, deep bool) (int64, []string) {
 			ids, _, err := cells.Store.QueryIds(tx, q.q)
 			if err != nil || fmt.Sprint(ids) != fmt.Sprint(q.exp) {
 				addf("query %q = %q err=%v, expected %q", q.q, ids, err, q.exp)
+			}
+		}
+		// the shared providers, asked inside this transaction, answer for this transaction's state
+		for pi, provider := range []func(tx *bbolt.Tx, forward bool) ast.SetCursor{s.anyOfPar0, s.onlyPar1} {
+			var exp []string
+			for i := 0; i < stampCells; i++ {
+				if parRole(i, g) == fmt.Sprintf("par-%d", pi) {
+					exp = append(exp, cellId(i))
+				}
+			}
+			for _, text := range []string{"true", "true sort by name desc"} {
+				want := exp
+				if text != "true" {
+					want = []string{exp[1], exp[0]}
+				}
+				pq, perr := ast.Parse(cells.Store, text)
+				if perr != nil {
+					addf("parse %q: %v", text, perr)
+					continue
+				}
+				ids, _, err := cells.Store.QueryWithCursorC(tx, provider, pq)
+				if err != nil || fmt.Sprint(ids) != fmt.Sprint(want) {
+					addf("shared IteratorMatchingAnyOf provider %d with %q = %q err=%v, expected %q (generation %d)", pi, text, ids, err, want, g)
+				}
 			}
 		}
 		it := idsOf(cells.Store.IterateIds(tx, ast.BoolNodeTrue))
